@@ -1001,7 +1001,43 @@ def run(repo, rep):
     forms_rules(repo, rep)
     carry_rule(repo, rep)
     digit_rules(repo, rep)
+    vector_validator_rule(repo, rep)
+    from . import common
+    common.identity_flag_rule(repo, rep, 'geodepy.angles')
     zero_angle_rules(repo, rep)
+
+
+def vector_validator_rule(repo, rep):
+    """the vectorised HP-to-decimal conversion is an HP-to-decimal conversion: a minutes or seconds field of 60 or more must be rejected with an
+    error as hp2dec does (sibling rule), not silently carried into the degrees.  Structural: hp2dec_v raises under a test of both fields."""
+    m = repo.module('geodepy.angles')
+    f = m.functions.get('hp2dec_v')
+    key = 'R-SIBLING::geodepy/angles.py::hp-validators::hp2dec_v'
+    if f is None:
+        rep.undecided('R-SIBLING', key, 'geodepy/angles.py:1', 'hp2dec_v not found')
+        return
+    rep.analysed(f)
+    # the two fields: names bound by the divmod split
+    fields = set()
+    for n in ast.walk(f.node):
+        if isinstance(n, ast.Assign) and isinstance(n.targets[0], ast.Tuple) and isinstance(n.value, ast.Call) and getattr(n.value.func, 'id', '') == 'divmod':
+            for t in n.targets[0].elts:
+                if isinstance(t, ast.Name):
+                    fields.add(t.id)
+    tested = set()
+    for n in ast.walk(f.node):
+        if isinstance(n, ast.If) and any(isinstance(b, ast.Raise) for b in n.body):
+            for c in ast.walk(n.test):
+                if isinstance(c, ast.Compare) and len(c.ops) == 1 and isinstance(c.ops[0], (ast.GtE, ast.Gt)) and isinstance(c.comparators[0], ast.Constant):
+                    for x in ast.walk(c.left):
+                        if isinstance(x, ast.Name) and x.id in fields:
+                            tested.add(x.id)
+    if len(tested) >= 2:
+        rep.holds('R-SIBLING', key, where(f, f.node), 'hp2dec_v raises under a test of its minutes and seconds fields (%s)' % ', '.join(sorted(tested)))
+    else:
+        rep.violated('R-SIBLING', key, where(f, f.node), 'hp2dec_v never rejects an HP value: hp2dec_v(numpy.array([123.7])) returns 124.1666... (70 minutes carried into the degrees) where '
+                     'hp2dec(123.7) raises "Invalid HP Notation" - the property has minutes / seconds fields of 60 or more rejected by the HP-to-decimal conversion',
+                     expected='raise ValueError when any minutes or seconds field is 60 or more', actual='no raising test on %s' % (', '.join(sorted(fields)) or 'the fields'))
 
 
 def zero_angle_rules(repo, rep):
